@@ -589,7 +589,7 @@ def build_cases(tier, seed):
         # sizes that are not multiples of the usual group counts (residual groups of one or two agents)
         for extra_n in (1, 2, 3):
             for direction in ("min", "max"):
-                for sd in (seeds[0] + extra_n, seeds[0] + 10 + extra_n, seeds[0] + 20 + extra_n):
+                for sd in [seeds[0] + extra_n + 10 * j for j in range(8)]:
                     kw = dict(base, max_cycles=8, population_size=base["population_size"] + extra_n)
                     cases.append(dict(opt=opt, cfg_name=cfg_name, cfg_kw=kw, kind="cont3", direction=direction, seed=sd, mode=None,
                                       scenario="single", scale=f"+{extra_n}"))
